@@ -156,6 +156,13 @@ Outcomes(T, q1, q2, s, a, ns, na, win) ==
 \* sup-norm non-expansion for alpha in [0,1] ((1-alpha) e + alpha gamma e <= e) plus one rounding (two for
 \* expected SARSA, whose target is rounded as well)
 Err(T, n) == IF T.alg = "ESARSA" THEN 2 * n ELSE n
+\* Scale factor (T.scale_exp # 0): the real MDP pays R * 10^scale_exp, the configured initial values and softmax
+\* temperature are scaled alike.  NewVal is positively homogeneous in (old, r, tgt), max / mean / entry targets are
+\* homogeneous and softmax(Q / tau) is invariant, so the machine below IS the model of the scaled run in units of
+\* 10^scale_exp / SCALE; the harness divides every observed magnitude by the factor before quantising.
+\* Call history (T.call = 2): the learner object was trained on another MDP over the same labels before.  The statement
+\* has no freshness precondition, so Init is the same: every table starts from the configured initial values of THIS
+\* instance (InitQ(T): 0 at T's absorbing states, T's available actions only).
 \* Perturbed rewards (near-tie family, T.pert = 1): the real MDP pays R + d * 2^-40 with d in {-1,0,1} while the model
 \* folds the integer R.  One update moves the real fold by at most alpha * 2^-40 <= 2^-24 units away from the model's,
 \* and the update is non-expansive, so after n <= 120 updates the two differ by < 120 * 2^-24 < 10^-5 units.  Every
